@@ -46,7 +46,7 @@ class Layout:
 
 
 def generate(rng, hostile=False, regimes=("lf", "crlf", "cr", "mixed"), max_files=5, max_pats=4, shared=0.5, glob=0.15, partial=0.3, legacy=False,
-             stale=0.0, only_partial=0.0):
+             stale=0.0, only_partial=0.0, repeat=0.15):
     """stale: probability that a file still shows an OLDER version (as after a branch switch or a missed update);
     only_partial: probability that a file carries partial patterns only (copyright year, MAJOR.MINOR)"""
     from bumpver import v2version
@@ -135,7 +135,13 @@ def generate(rng, hostile=False, regimes=("lf", "crlf", "cr", "mixed"), max_file
         key = name
         if rng.random() < glob and "/" in name:
             key = os.path.dirname(name) + "/*" + os.path.splitext(name)[1]
-        lay.entries.append((key, list(raws)))
+        if len(raws) >= 2 and rng.random() < repeat:
+            # a repeated entry for the same file under another spelling of its path: the loader accumulates the patterns
+            k = rng.randrange(1, len(raws))
+            lay.entries.append((key, list(raws[:k])))
+            lay.entries.append((rng.choice(["./", ""]) + name if key != name else "./" + name, list(raws[k:])))
+        else:
+            lay.entries.append((key, list(raws)))
     lay.unconfigured = {"NOTES.txt": "notes about %s\n" % old, ".hidden": old + "\r\n", "src/other.py": "# %s\n" % old}
     return lay
 
